@@ -1,0 +1,55 @@
+//go:build verif
+
+package filesystem
+
+// Contracts for the sandboxed filesystem (property C11), checked by /verif/govc.
+// Comment-only file: it adds nothing to any build.
+//
+// Path strings are seen through three uninterpreted predicates (declared with the assumed contracts
+// of path/filepath): rooted(p), pclean(p) (Clean(p) == p) and under(root, p) (lexical containment).
+//
+// Representation invariant of Htfs: the root is a clean path and the working directory is a rooted,
+// clean virtual path (a rooted clean path has no ".." component, so joining it under the root cannot
+// leave the root). The fields are unexported and every function of this package is under contract
+// with a frame, so the invariant holds between any two calls.
+//@ spec fsinv(f *Htfs) bool = pclean(f.root) && rooted(f.cwd) && pclean(f.cwd)
+//
+// RealPath: the result is under the root for EVERY argument string.
+//@ func (*Htfs).RealPath
+//@   check safety, frame
+//@   requires [inv] fsinv(f)
+//@   ensures [contained] under(f.root, result)
+//@   modifies nothing
+//
+//@ func (*Htfs).Cwd
+//@   check safety, frame
+//@   requires [inv] fsinv(f)
+//@   ensures [reported-inside] rooted(result) && pclean(result) && result == f.cwd
+//@   modifies nothing
+//
+// ChangeDir: the only writer of cwd; it keeps the invariant and looks at nothing outside the root.
+//@ func (*Htfs).ChangeDir
+//@   check safety, frame
+//@   requires [inv] fsinv(f)
+//@   ensures [inv] fsinv(f)
+//@   ensures [root-kept] f.root == old(f.root)
+//@   ensures [error-keeps-cwd] result != nil ==> f.cwd == old(f.cwd)
+//@   callpre os.Lstat: under(f.root, name)
+//@   modifies f.cwd
+//
+//@ func genUniqueName
+//@   trusted
+//@   ensures result1 == nil ==> len(result0) == 15
+//@   modifies nothing
+//
+//@ func makeRoot
+//@   check safety, frame
+//@   ensures [clean] result1 == nil ==> pclean(result0)
+//@   modifies fexists
+//
+// New establishes the invariant.
+//@ func New
+//@   check safety, frame
+//@   ensures [inv] result1 == nil ==> result0 != nil && fsinv(result0)
+//@   ensures [fresh] result1 == nil ==> fresh(result0)
+//@   modifies fexists
